@@ -158,6 +158,12 @@ func c14Mutators(p mq.Packet) []sop {
 				}
 			}},
 			{Name: "AddUserProp", Call: func(q any) { q.(*mq.Subscribe).AddUserProp("late", "prop") }},
+			// a filter no longer than the one it replaces (it fits the old bytes)
+			{Name: "Filters()[last].SetFilter(z)", Call: func(q any) {
+				if fs := q.(*mq.Subscribe).Filters(); len(fs) > 0 {
+					fs[len(fs)-1].SetFilter("z")
+				}
+			}},
 		}
 	}
 	name := strings.TrimPrefix(fmt.Sprintf("%T", p), "*mq.")
@@ -203,7 +209,7 @@ func c14Alphabet(pf *poolFrames) []poolOp {
 	for s := 0; s < 3; s++ {
 		ops = append(ops, poolOp{Name: fmt.Sprintf("encode(#%d)", s), Kind: 'e', Slot: s})
 		ops = append(ops, poolOp{Name: fmt.Sprintf("render(#%d)", s), Kind: 'd', Slot: s})
-		for m := 0; m < 4; m++ {
+		for m := 0; m < 5; m++ {
 			ops = append(ops, poolOp{Name: fmt.Sprintf("set%d(#%d)", m, s), Kind: 'm', Slot: s, Mutate: m})
 		}
 	}
